@@ -110,7 +110,10 @@ class C15(Prop):
             "V: the R operations through the real exporter under a mock quanta clock (PrometheusBuilder+build_recorder, histogram!().record, render): "
             "a burst of 1..6 samples (1/8 +-inf), then 1..4 renders at times chosen on and one tick around the window and bucket edges so that none/some/"
             "all samples are outside the window, optionally more samples and renders; the distribution (samples outside the window per render, "
-            "infinite samples) is written to the evidence (summary_window_distribution). Q: one quantile (a 30-value list incl. 0, 1, out-of-range, -0.0, NaN, +-inf, 0.29, 0.57, 1e-7, or k/1000, k/100000). "
+            "infinite samples) is written to the evidence (summary_window_distribution). W (extra engine, not part of the case count): the V operations on the REAL clock (build_recorder(), real sleeps, ticks = ms) in three processes = "
+            "three regimes of quanta's recent time (none / Upkeep 600 s / set once), 4 (thorough 10) scenarios each, side by side: rounds of 1..3 samples + "
+            "render at once, separated by sleeps of >= 1.3 windows + 100 ms, windows 400..1200 ms; a run whose round took longer than a quarter bucket is repeated. "
+            "Q: one quantile (a 30-value list incl. 0, 1, out-of-range, -0.0, NaN, +-inf, 0.29, 0.57, 1e-7, or k/1000, k/100000). "
             "Non-trivial = at least one operation / override; distinct = distinct (case, output)")
     design_ref = "DESIGN.md 4 C15"
     technique = ("Coq proof over an abstract float interface (FloatOps) about hand-written models of Histogram, Matcher/DistributionBuilder "
@@ -139,7 +142,7 @@ class C15(Prop):
                   "plus per-case spec_ok only: float Display formatting is an oracle input computed by the python side and cross-checked against "
                   "the driver's own rendering; f64::max/min ties (-0.0 vs 0.0) are modelled as observed (the constant operand wins).")
     assumptions = ["u64 counters and nanosecond instants do not overflow",
-                   "quanta mock clock stands for the real clock",
+                   "quanta mock clock stands for the real clock, except in the real-clock engine (12 scenarios quick / 30 thorough, three regimes of quanta's recent time), which exists to tell which time source the code reads",
                    "the theorems are stated for every FloatOps instance whose <= is transitive and in which a value not <= itself (NaN) is <= nothing; "
                    "that Coq's primitive floats satisfy this is not proved (it would need the FloatAxioms of the standard library)",
                    "rolling-summary samples in the correspondence runs are non-NaN doubles that are 0, of magnitude 1e-3..1e6, or +-inf (Summary::add drops infinities from the sketch; _sum and _count include them); NaN samples are outside the summary clause (no order; DDSketch files them under zero)"]
